@@ -484,7 +484,7 @@ def translate(ctx):
 def stream_sizes(ctx) -> Dict[str, int]:
     if ctx.tier == "quick":
         return {"A": 120, "B": 3000, "C": 400}
-    return {"A": 1500, "B": 40000, "C": 4000}
+    return {"A": 1000, "B": 30000, "C": 3000}
 
 
 def template_vars(t, backend: str) -> List[str]:
